@@ -8,6 +8,7 @@ from vlib import gen
 from vlib.runner import Stats, Violation, sut
 
 ID = "C08"
+DETERMINISTIC = True  # pure in-memory functions judged by a pure oracle: see runner (a failure seen once counts)
 RULE = (
     "case = list of 0..12 events in ANY order (timestamps on a ms grid within a 40 ms / 6 s window so overlaps, ties and out-of-order "
     "pairs are common; durations at us granularity, zero and negative included; data from {A,B}) x pulsetime P us (0, small, k ms, k us, or "
